@@ -9,7 +9,7 @@ import ast
 import z3
 from pyvc.values import *   # noqa
 from pyvc.harness import unit, mutate_function, replace_compare, Unit
-from pyvc.loops import LoopSpec, loop_table
+from pyvc.loops import LoopSpec, loop_table, Sel
 from pyvc.ctx import Undecided
 from pyvc.interp import Interp, PyExc, Frame
 from pyvc import source
@@ -157,7 +157,7 @@ def rfile_write(ctx):
     ctx.assume(And(off >= 0, vn >= 0))
     vals = ByteStr(vn, (lambda i: vf(to_z3(i))))
     mod = source.load(JMOD)
-    loops = {'ResizableFile.write': loop_table(mod, 'ResizableFile.write', {0: _grow_loop_spec(ctx, mm, img0)})} if \
+    loops = {'ResizableFile.write': loop_table(mod, 'ResizableFile.write', {Sel('while', header=('size',)): _grow_loop_spec(ctx, mm, img0)})} if \
         any(isinstance(n, ast.While) for n in ast.walk(mod.find('ResizableFile.write')[0])) else {}
     I = Interp(ctx, registry={'ResizableFile.__extand': extand_trusted}, loop_invariants=loops)
     fn, ci = mod.find('ResizableFile.write')
@@ -417,7 +417,7 @@ def fj_delete_from(ctx):
     ctx.track('entryFrom', k)
     ctx.assume(k >= 0)
     mod = source.load(JMOD)
-    loops = {'FileJournal.deleteEntriesFrom': loop_table(mod, 'FileJournal.deleteEntriesFrom', {0: _delfrom_loop_spec(ctx, fj, v, k, img0)})}
+    loops = {'FileJournal.deleteEntriesFrom': loop_table(mod, 'FileJournal.deleteEntriesFrom', {Sel('while', header=('removedEntries',)): _delfrom_loop_spec(ctx, fj, v, k, img0)})}
     outcome, r, I = run_fj(ctx, fj, 'deleteEntriesFrom', [k], loops=loops)
     ctx.prove(outcome == 'ok', 'C08:O8.5.no-exception', info=outcome)
     if outcome != 'ok':
@@ -494,7 +494,7 @@ def fj_delete_to(ctx):
         return [('readds-exactly-the-suffix', And(Eq(idx, v.idx(i)), Eq(term, v.term(i)), Eq(cb.n, CLEN(v.cmd(i))),
                                                   Implies(And(j >= 0, j < CLEN(v.cmd(i))), cb.at(j) == CBYTE(v.cmd(i), j)), i < n))]
     spec = LoopSpec('C08+C06:O8.6', loop_inv, check=check)
-    loops = {'FileJournal.deleteEntriesTo': loop_table(mod, 'FileJournal.deleteEntriesTo', {0: spec})}
+    loops = {'FileJournal.deleteEntriesTo': loop_table(mod, 'FileJournal.deleteEntriesTo', {Sel('for', body=('add',)): spec})}
     outcome, r, I = run_fj(ctx, fj, 'deleteEntriesTo', [k], registry={'FileJournal.clear': clear_summary_factory(st),
                                                                       'FileJournal.add': add_summary_factory(st)}, loops=loops)
     ctx.prove(outcome == 'ok', 'C08:O8.6.no-exception', info=outcome)
@@ -555,7 +555,7 @@ def fj_reopen(ctx):
     c = ctx.cell(fj)
     ctx.setcell(fj, c.with_field(FJ('journal'), ctx.alloc(PList([]))).with_field(FJ('currentOffset'), None))
     st = {}
-    loops = {'FileJournal.__init__': loop_table(mod, 'FileJournal.__init__', {0: _decode_loop_spec(ctx, fj, v, img0, st)})}
+    loops = {'FileJournal.__init__': loop_table(mod, 'FileJournal.__init__', {Sel('while', header=('currentOffset',)): _decode_loop_spec(ctx, fj, v, img0, st)})}
     I = Interp(ctx, registry=JREG, externals=JEXT, inline={'FileJournal.__getLastRecordOffset'}, loop_invariants=loops)
     fr = Frame(mod, 'FileJournal', 'FileJournal.__init__')
     fr.locals['self'] = fj
